@@ -81,7 +81,9 @@ def main(tier):
         res = replay_main(sys.argv[2], make_harness)
         print('REPLAY: %s' % ('differs from the reference / sanitizer report' if (res['x'] or crash_class(res)) else 'case agrees with the reference on the current tree'))
         return 1 if (res['x'] or crash_class(res)) else 0
-    h = make_harness()
+    h, rc_ = harness_or_violation('C15', tier, make_harness)
+    if h is None:
+        return rc_
     ex = Explorer('C15', tier, h, 'args', 'c15.py')
     cs = cases(tier)
     per_mode = {}
